@@ -299,6 +299,12 @@ class ResourceScenario(ScenarioData):
         if not self.onShift(sb_idx):
             return False
 
+        # An integer entry marks off-duty time or a leave (bookings store the task):
+        # such a slot is never available, however many of its seconds are unused
+        entry = self.scoreboard[sb_idx]
+        if entry is not None and isinstance(entry, int):
+            return False
+
         # Check if slot has any available time
         available_seconds = self.getAvailableSecondsInSlot(sb_idx)
         if available_seconds <= 0:
